@@ -162,6 +162,25 @@ func genProgram(r *verifsim.Rng) (src, expect string, parts []string) {
 		case k < 5:
 			parts = append(parts, fmt.Sprintf("jsondec|%d|%s", i, strings.Join(pickNames(r, 2+r.Intn(5)), ",")))
 		case k < 6:
+			if r.Intn(5) == 0 {
+				// a LARGE associative array (built in a loop) edited by unset / overwrite / add:
+				// containers that change representation or bookkeeping above some size
+				size := verifsim.Pick(r, []int{64, 65, 100, 130, 500})
+				var ops []string
+				for e := 0; e < 2+r.Intn(5); e++ {
+					switch r.Intn(3) {
+					case 0:
+						ops = append(ops, fmt.Sprintf("u:k%d", r.Intn(size)))
+					case 1:
+						ops = append(ops, fmt.Sprintf("s:k%d", r.Intn(size)))
+					default:
+						ops = append(ops, fmt.Sprintf("a:fresh%d", e))
+					}
+				}
+				// (how the array starts decides its representation: empty literal, or a literal with a string key)
+				parts = append(parts, fmt.Sprintf("mutbig|%d|%d|%s|%d", i, size, strings.Join(ops, ","), r.Intn(2)))
+				break
+			}
 			if r.Intn(2) == 0 {
 				// an associative array edited by a sequence of unset / overwrite / add
 				names := pickNames(r, 4+r.Intn(6))
@@ -263,6 +282,42 @@ func assemble(parts []string) (string, string) {
 				fmt.Fprintf(&b, "echo \"arrkeys%s=\", implode(\",\", array_keys($arr%s)), \"\\n\";\n", i, i)
 				fmt.Fprintf(&e, "arrkeys%s=%s\n", i, strings.Join(names, ","))
 			}
+		case "mutbig":
+			size := 0
+			fmt.Sscan(f[2], &size)
+			if len(f) > 4 && f[4] == "1" {
+				fmt.Fprintf(&b, "$mb%s = [\"k0\" => 0]; for ($q = 1; $q < %d; $q++) { $mb%s[\"k\" . $q] = $q; }\n", i, size, i)
+			} else {
+				fmt.Fprintf(&b, "$mb%s = []; for ($q = 0; $q < %d; $q++) { $mb%s[\"k\" . $q] = $q; }\n", i, size, i)
+			}
+			var keys []string
+			for q := 0; q < size; q++ {
+				keys = append(keys, fmt.Sprintf("k%d", q))
+			}
+			for e, op := range strings.Split(f[3], ",") {
+				kind, key, _ := strings.Cut(op, ":")
+				pos := -1
+				for j := range keys {
+					if keys[j] == key {
+						pos = j
+					}
+				}
+				if kind == "u" {
+					fmt.Fprintf(&b, "unset($mb%s[%q]);\n", i, key)
+					if pos >= 0 {
+						keys = append(keys[:pos], keys[pos+1:]...)
+					}
+				} else {
+					fmt.Fprintf(&b, "$mb%s[%q] = %d;\n", i, key, 1000+e)
+					if pos < 0 {
+						keys = append(keys, key)
+					}
+				}
+			}
+			fmt.Fprintf(&b, "echo \"mbkeys%s=\", implode(\",\", array_keys($mb%s)), \"\\n\";\n", i, i)
+			fmt.Fprintf(&e, "mbkeys%s=%s\n", i, strings.Join(keys, ","))
+			fmt.Fprintf(&b, "echo \"mbeach%s=\"; foreach ($mb%s as $k => $v) { echo $k, \",\"; } echo \"\\n\";\n", i, i)
+			fmt.Fprintf(&e, "mbeach%s=%s,\n", i, strings.Join(keys, ","))
 		case "mutate":
 			// reference model of array order: insertion order; overwriting keeps
 			// the position; unset removes; adding an absent key appends
